@@ -31,6 +31,18 @@ type Sched struct {
 	Trace       []string
 	KeepTrace   bool
 	sig         *Sig
+	// PCT: when PCTDepth > 0 and the run is not a replay, decisions come from a priority-based
+	// strategy (probabilistic concurrency testing): every task gets a random priority, the highest
+	// priority task that can make progress always runs, and at PCTDepth-1 randomly chosen steps the
+	// running task's priority drops below all others (optionally with a jump of the clock). Bugs
+	// that need d ordering constraints are hit with probability >= 1/(n*k^(d-1)) instead of
+	// exponentially rarely. The decisions taken are recorded like any others, so replay and
+	// minimisation do not depend on the strategy.
+	PCTDepth  int
+	PCTSteps  int
+	pctPrio   map[int]int
+	pctChange map[int]bool
+	pctLow    int
 	// OnRelease, if set, runs on the scheduler goroutine just before a task is released (e.g. to
 	// tell the simulated OS on whose behalf the following operations run).
 	OnRelease func(t *Task)
@@ -90,6 +102,15 @@ func (c *Chooser) Intn(n int) int {
 	c.Taken = append(c.Taken, v)
 	return v
 }
+
+// record notes a decision produced by a strategy (so that it is part of the replay trace).
+func (c *Chooser) record(v int) int {
+	c.Taken = append(c.Taken, v)
+	return v
+}
+
+// Rng exposes the generation-mode PRNG (nil-safe: replays never draw).
+func (c *Chooser) Replaying() bool { return c.replay != nil }
 
 func NewSched(ch *Chooser) *Sched {
 	return &Sched{ch: ch, MaxStep: 20000, sig: NewSig()}
@@ -206,7 +227,7 @@ func (s *Sched) Run() string {
 		if len(cands) == 0 && len(waiting) == 0 {
 			return "deadlock: no runnable task and nobody waits on time"
 		}
-		d := s.ch.Intn(len(cands) + nTime)
+		d := s.decide(cands, waiting, nTime)
 		if len(cands) == 0 {
 			// only time can pass; do not waste decisions on picking the step
 			d = d % nTime
@@ -240,6 +261,59 @@ func (s *Sched) Run() string {
 		}
 		t.run <- struct{}{}
 	}
+}
+
+// decide returns the index into [cands..., time options...] for this step.
+func (s *Sched) decide(cands, waiting []*Task, nTime int) int {
+	n := len(cands) + nTime
+	if s.PCTDepth <= 0 || s.ch.replay != nil {
+		return s.ch.Intn(n)
+	}
+	if s.pctPrio == nil {
+		s.pctPrio = map[int]int{}
+		s.pctChange = map[int]bool{}
+		k := s.PCTSteps
+		if k <= 0 {
+			k = 150
+		}
+		for i := 0; i < s.PCTDepth-1; i++ {
+			s.pctChange[1+s.ch.rng.Intn(k)] = true
+		}
+		s.pctLow = -1
+	}
+	prio := func(t *Task) int {
+		p, ok := s.pctPrio[t.ID]
+		if !ok {
+			p = 1000 + s.ch.rng.Intn(1000000)
+			s.pctPrio[t.ID] = p
+		}
+		return p
+	}
+	// the task that ran last is a change-point victim
+	if s.pctChange[s.steps] && s.last != nil {
+		s.pctPrio[s.last.ID] = s.pctLow
+		s.pctLow--
+		if s.ch.rng.Chance(1, 2) {
+			// let simulated time pass at the change point (grace periods, time-outs)
+			return s.ch.record(len(cands) + s.ch.rng.Intn(nTime))
+		}
+	}
+	best, bestIdx, bestWaiting := -1<<62, -1, false
+	for i, t := range cands {
+		if p := prio(t); p > best {
+			best, bestIdx, bestWaiting = p, i, false
+		}
+	}
+	for _, t := range waiting {
+		if p := prio(t); p > best {
+			best, bestWaiting = p, true
+		}
+	}
+	if bestWaiting || bestIdx < 0 {
+		// the highest-priority task sleeps on the clock: time has to pass for it to go on
+		return s.ch.record(len(cands) + s.ch.rng.Intn(nTime))
+	}
+	return s.ch.record(bestIdx)
 }
 
 func (s *Sched) advance(step int) {
